@@ -225,9 +225,43 @@ func runConfigs(args []string) {
 		}
 		h1 := sha1.New()
 		calls, cases, nontriv := 0, 0, 0
+		// the record's haystacks, and pumped members of its 2-symbol haystacks that cross the vector block sizes (16/32/64
+		// bytes) and the 100-byte window: the CPU-masked runs and the prefilter-related knobs only differ on longer inputs
+		type hcase struct {
+			b  []byte
+			hx string
+		}
+		var hcs []hcase
 		for hi := range rec.Hs {
 			b := core.HayBytes(rec.Hs[hi].H)
-			hx := core.Hex(b)
+			hcs = append(hcs, hcase{b, core.Hex(b)})
+		}
+		for hi := range rec.Hs {
+			h := rec.Hs[hi].H
+			if len(h) != 2 || (rec.I+h[0]*5+h[1])%2 != 0 {
+				continue
+			}
+			for li, n := range []int{20, 70, 150} {
+				var u, v, w []int
+				switch (li + h[0]) % 3 {
+				case 0:
+					u, v, w = nil, h[:1], h[1:]
+				case 1:
+					u, v, w = h[:1], h[1:], nil
+				default:
+					u, v, w = nil, h, nil
+				}
+				ub, vb, wb := core.HayBytes(u), core.HayBytes(v), core.HayBytes(w)
+				b := append([]byte{}, ub...)
+				for len(b) < n {
+					b = append(b, vb...)
+				}
+				b = append(b, wb...)
+				hcs = append(hcs, hcase{b, core.Hex(ub) + "|" + core.Hex(vb) + "*|" + core.Hex(wb) + fmt.Sprintf("|%d", len(b))})
+			}
+		}
+		for _, hc := range hcs {
+			b, hx := hc.b, hc.hx
 			cases++
 			want, perr := results(def, b)
 			if perr != "" {
